@@ -348,6 +348,18 @@ def gen_call(rng, fn=None, force=None):
         call["weights"] = [rng.choice([0.0, 0.5, 1.0, 1.0, 2.0, 3.0, NAN]) if rng.random() < 0.9 else NAN for _ in range(n)]
         if rng.random() < 0.8:
             call["weights"] = [1.0 if math.isnan(x) else x for x in call["weights"]]
+    # NUMERIC SCALE class: the same ensemble far from zero (pressure in Pa, epoch seconds): every value, threshold and
+    # observation shifted by a large exactly representable offset.  Differences stay exact, so the model value is the
+    # translate of the original one; a tolerance that scales with |value| (np.isclose) bites exactly here.
+    if fn in ("plain", "upper", "lower", "interval", "tw_upper") and rng.random() < 0.18 and not force.get("no_shift"):
+        off = rng.choice([2.0 ** 17, -(2.0 ** 20), 101325.0, 2.0 ** 30, 1.7e9])
+        sh = lambda v: v if (isinstance(v, float) and math.isnan(v)) else v + off   # noqa: E731
+        call["members"] = [[sh(v) for v in row] for row in call["members"]]
+        call["obs"] = [sh(v) for v in call["obs"]]
+        for key in ("t", "a", "b"):
+            if key in call:
+                call[key] = [sh(v) for v in call[key]] if isinstance(call[key], list) else sh(call[key])
+        call["offset"] = off
     call.update(force.get("set", {}))
     return call
 
